@@ -704,6 +704,16 @@ def family_dr(ctx, r, exact, n, opaque=False):
                     callback=rec, lam=lam, **kw_l)
     if st != 'ok':
         ctx.err(err_kind(st))
+    else:
+        x2 = sl.unflat_distinct(dom, x0)
+        rec2 = Recorder()
+        st_d, _ = guarded(douglas_rachford_pd, x2, F.f, [G.f for G in Gs], Ls, n, tau=tau, sigma=sigma,
+                          callback=rec2, lam=lam, **kw_l)
+        ctx.hit('start/equal-distinct-space/dr')
+        dd = st_d if st_d != 'ok' else sl.arrays_differ(rec2.iterates, rec.iterates)
+        if dd:
+            viol(ctx, 'douglas_rachford_pd started from an element of an equal but separately built '
+                 'space m={}'.format(m), str(dd)[:300], p, n=n)
     mats = [c11.wire_op(L) for L in Ls]
     fields = ' '.join('A{0}={1} At{0}={2} p{0}={3}'.format(
         i, fmat(mats[i][0]), fmat(mats[i][1]), Gs[i].cprox(sigma[i])) for i in range(m))
@@ -737,6 +747,16 @@ def family_fbpd(ctx, r, exact, n, opaque=False):
                     callback=rec, **kw_l)
     if st != 'ok':
         ctx.err(err_kind(st))
+    else:
+        x2 = sl.unflat_distinct(dom, x0)
+        rec2 = Recorder()
+        st_d, _ = guarded(forward_backward_pd, x2, F.f, [G.f for G in Gs], Ls, H.f, tau, sigma, n,
+                          callback=rec2, **kw_l)
+        ctx.hit('start/equal-distinct-space/fbpd')
+        dd = st_d if st_d != 'ok' else sl.arrays_differ(rec2.iterates, rec.iterates)
+        if dd:
+            viol(ctx, 'forward_backward_pd started from an element of an equal but separately built '
+                 'space m={}'.format(m), str(dd)[:300], p, n=n)
     mats = [c11.wire_op(L) for L in Ls]
     fields = ' '.join('A{0}={1} At{0}={2} p{0}={3}'.format(
         i, fmat(mats[i][0]), fmat(mats[i][1]), Gs[i].cprox(sigma[i])) for i in range(m))
@@ -1626,7 +1646,8 @@ EXPECTED_BRANCHES = [
     'reference/osmlem/sensitivities=element', 'reference/osmlem/sensitivities=float',
     'test/start at the solution', 'oracle/stepsize admissibility',
     'history/landweber-default', 'history/pdhg_stepsize', 'history/douglas_rachford_pd_stepsize',
-    'history/optimality-default-steps',
+    'history/optimality-default-steps', 'start/equal-distinct-space/dr',
+    'start/equal-distinct-space/fbpd',
 ]
 SLOW = {'optimality': 0.2, 'fixed_point': 0.3, 'optimality_multi': 0.15, 'proxgrad_descent': 0.15, 'f12': 0.05, 'fista_rate': 0.05}
 C11_TIE = ('landweber', 'kaczmarz', 'pdhg', 'admm', 'proxgrad')
